@@ -32,6 +32,8 @@ def _gen(case):
         ent = {'selector': f"{pkg}.Things.{e['selector']}"}
         if e['fields']:
             ent['auto_populated_fields'] = list(e['fields'])
+        if e.get('lro'):
+            ent['long_running'] = {'initial_poll_delay': '5s', 'poll_delay_multiplier': 1.5, 'max_poll_delay': '60s', 'total_poll_timeout': '600s'}
         ms.append(ent)
     api['yaml']['publishing'] = {'method_settings': ms}
     with gen.scratch() as work:
@@ -52,11 +54,14 @@ def run(chk):
         single = [c for c in cases if len(c['settings']) <= 1]
         double = [c for c in cases if len(c['settings']) == 2]
         triple = [c for c in cases if len(c['settings']) > 2]       # duplicate selectors, adjacent and not: always all of them
-        cases = single + triple + rnd.sample(double, min(120, len(double)))
+        tuning = [c for c in double if any(e.get('lro') for e in c['settings'])]      # tuning-only entries: always all of them
+        double = [c for c in double if c not in tuning]
+        cases = single + triple + tuning + rnd.sample(double, min(120, len(double)))
     with ProcessPoolExecutor(14) as ex:
         outs = list(ex.map(_gen, cases, chunksize=4))
     for c, (got, msg) in zip(cases, outs):
-        k = 'settings:' + ('' if c.get('layout', 'root') == 'root' else c['layout'] + ':') + ';'.join(f"{e['selector']}[{','.join(sorted(e['fields']))}]" for e in c['settings'])
+        k = 'settings:' + ('' if c.get('layout', 'root') == 'root' else c['layout'] + ':') + ';'.join(
+            f"{e['selector']}[{','.join(sorted(e['fields']))}]" + ('+lro' if e.get('lro') else '') for e in c['settings'])
         chk.case(k, nontrivial=len(c['settings']) > 0)
         if got != c['expect']:
             chk.violation(k, f"generation outcome {got} ({msg}) but the specification predicts {c['expect']}", dict(case=c, got=got, msg=msg))
